@@ -8,5 +8,5 @@ CONSTANTS
  MaxReins = 0
  AllowRemove = TRUE
  Dev = {}
-INVARIANTS TypeOK NoLostWakeup NoStreamLost ReadyHasSignal FairBoundTight LiveInHeap YieldBound
+INVARIANTS TypeOK NoLostWakeup NoStreamLost ReadyHasSignal FairBoundTight LiveInHeap YieldBound EndReported
 CHECK_DEADLOCK FALSE
